@@ -37,6 +37,9 @@ pub fn progwalk_session(rep: &mut Report, check: &str, judge: &Judge, groups: &[
     let mut r = Regs { er: gen::regs(&mut rng), ccr: rng.u8(), pc: base };
     r.er[7] = (if rng.chance(1, 2) { 0xfff800u32 } else { 0x5f8000 }) | if rng.chance(1, 3) { (rng.u8() as u32) << 24 } else { 0 };
     sess.set_regs(&r);
+    if rng.chance(1, 4) {
+        sess.io_background(rng.next());
+    }
     if rng.chance(1, 3) {
         for (a, v) in gen::io_noise(&mut rng) {
             sess.poke(a, v);
